@@ -173,7 +173,37 @@ fn judge_word(ctx: &mut Ctx, kind: usize, w: u32, via_message: bool) {
         let run = exec::decode_msg(&msg, Some(crate::spec::model::SOpts::STRICT), exec::Rk::Slice);
         match &run.out {
             exec::Out::Ok(crate::spec::model::SMsg::Control(c)) if c.avps.len() == 2 && c.avps[1].body == crate::spec::model::SBody::U32(w) && c.avps[1].attr == attr => ctx.rep.bucket("via_message"),
-            other => ctx.violate(format!("C17:{}:via-message", name), format!("word {:#010x} inside a control message decodes as {}", w, super::common::out_str(other)), wit),
+            other => ctx.violate(format!("C17:{}:via-message", name), format!("word {:#010x} inside a control message decodes as {}", w, super::common::out_str(other)), wit.clone()),
+        }
+        // the word followed by surplus payload octets (which the decoder ignores): all 32 bits
+        // must still arrive, through the bare AVP list and through a whole message
+        {
+            let extra = *ctx.rng.pick(&[1usize, 2, 4, 12, 251, 1013]);
+            let mut payload = w.to_be_bytes().to_vec();
+            let fill = ctx.rng.bytes(extra);
+            payload.extend_from_slice(&fill);
+            let rec = crate::gen::wire::raw_record(attr, false, 0, &payload, true);
+            let got_list = match exec::decode_avps(&rec, exec::Rk::Slice).out {
+                exec::Out::Ok(l) => l.into_iter().next().and_then(|r| r.ok()),
+                _ => None,
+            };
+            let mut body = crate::gen::wire::message_type_record(1);
+            body.extend_from_slice(&rec);
+            let msg = crate::gen::wire::control_around(&body, 1, 1, 0, 0);
+            let got_msg = match exec::decode_msg(&msg, Some(crate::spec::model::SOpts::STRICT), exec::Rk::Slice).out {
+                exec::Out::Ok(crate::spec::model::SMsg::Control(c)) if c.avps.len() == 2 => Some(c.avps[1].clone()),
+                _ => None,
+            };
+            for (how, got) in [("bare AVP list", got_list), ("control message", got_msg)] {
+                match got {
+                    Some(a) if a.attr == attr && a.body == crate::spec::model::SBody::U32(w) => ctx.rep.bucket("via_surplus_payload"),
+                    other => ctx.violate(
+                        format!("C17:{}:bits-lost:surplus-payload", name),
+                        format!("wire word {:#010x} followed by {} surplus payload octets decodes through the {} as {:?}", w, extra, how, other),
+                        wit.clone(),
+                    ),
+                }
+            }
         }
     }
 }
